@@ -231,3 +231,36 @@ End Roundtrip.
 (** The ECN bits reported are the two low bits of what was decoded. *)
 Lemma ecn_bits_roundtrip e : ecn_of_bits (ecn_bits e) = e.
 Proof. destruct e; reflexivity. Qed.
+
+(** The concrete [prepare_msg] model (the one the correspondence runs) pushes exactly the payload
+    sizes of its option combination, hence fits whenever the combination does. *)
+Definition src_ok (src : option (list Z)) : Prop :=
+  match src with None => True | Some a => length a = 4%nat \/ length a = 16%nat end.
+
+Definition opt_of (dst : dstk) (seg : option Z) (src : option (list Z)) (einval : bool) : sendopt :=
+  {| o_dst := dst; o_ecn := ENone; o_seg := match seg with Some _ => true | None => false end;
+     o_src := match src with None => SNone | Some a => if Nat.eqb (length a) 4 then SV4 else SV6 end;
+     o_einval := einval; o_encsrc := true |}.
+
+Lemma prepare_cmsgs_sizes dst ecn seg src einval :
+  src_ok src ->
+  map (fun c => zlen (c_data c)) (prepare_cmsgs gen_layout dst ecn seg src einval)
+  = send_sizes gen_layout (opt_of dst seg src einval).
+Proof.
+  intro Hs. unfold prepare_cmsgs, send_sizes, opt_of. cbn [o_dst o_seg o_src o_einval].
+  rewrite !map_app. f_equal; [|f_equal].
+  - destruct (is_ipv4 dst); [destruct einval|]; cbn [map c_data]; rewrite ?zlen_le_bytes; reflexivity.
+  - destruct seg; cbn [map c_data]; rewrite ?zlen_le_bytes; reflexivity.
+  - destruct src as [a|]; [|reflexivity]. cbn [src_ok] in Hs.
+    destruct (Nat.eqb (length a) 4) eqn:E; cbn [map c_data]; rewrite !zlen_app, zlen_le_bytes.
+    + apply Nat.eqb_eq in E. unfold zlen. rewrite E. reflexivity.
+    + apply Nat.eqb_neq in E. destruct Hs as [H|H]; [congruence|]. unfold zlen. rewrite H. reflexivity.
+Qed.
+
+Lemma prepare_cmsgs_fits dst ecn seg src einval :
+  send_fits_all gen_layout = true -> src_ok src ->
+  cmsgs_space gen_layout (prepare_cmsgs gen_layout dst ecn seg src einval) <= l_buf gen_layout.
+Proof.
+  intros Hf Hs. unfold cmsgs_space. rewrite prepare_cmsgs_sizes by exact Hs.
+  apply send_fits_sound. exact Hf.
+Qed.
